@@ -11,6 +11,7 @@ from __future__ import annotations
 import itertools
 
 from .. import common, impl
+from .. import s5_c13 as s5
 from ..common import A, Case, Result, mkrng, parse_sexp, run_driver, sx
 from ..structprops import rand_bytes
 
@@ -26,7 +27,9 @@ class Item:
         self.tokens, self.defines, self.uses, self.line, self.enum = tokens, defines, uses, line, enum
 
 
-def gen_items(rnd, n):
+def gen_items(rnd, n, prefix="", multi=True):
+    """prefix: put before every top-level name (type, constant), so that several generated sets can share one instance;
+    multi: allow several names after a struct typedef"""
     items = []
     types = []      # user type names usable by later items
     consts = []
@@ -35,7 +38,7 @@ def gen_items(rnd, n):
     def tname():
         nonlocal k
         k += 1
-        return f"T{k}"
+        return f"{prefix}T{k}"
 
     def field_tokens(fname, avail):
         r = rnd.random()
@@ -66,7 +69,7 @@ def gen_items(rnd, n):
     for _ in range(n):
         r = rnd.random()
         if r < 0.12:
-            nm = f"K{len(consts)}"
+            nm = f"{prefix}K{len(consts)}"
             items.append(Item([(f"#define {nm} {rnd.choice(['2', '0x3', '(1 + 2)', '4'])}\n",)], {nm}, set(), line=True))
             consts.append(nm)
         elif r < 0.3:
@@ -111,22 +114,26 @@ def gen_items(rnd, n):
                     body += ft
                     uses |= fu
             if rnd.random() < 0.3:
-                alias = tname()
-                extra = [alias] if rnd.random() < 0.5 else []
-                toks = ["typedef", kind, nm, "{"] + body + ["}"] + [alias] + (([",", tname()]) if False else []) + [";"]
-                items.append(Item(toks, {nm, alias}, uses))
-                types += [nm, alias]
+                aliases = [tname() for _ in range(rnd.choice([1, 1, 2, 3]) if multi else 1)]
+                toks = ["typedef", kind, nm, "{"] + body + ["}"]
+                for a in aliases:
+                    toks += [a, ","]
+                toks[-1] = ";"
+                items.append(Item(toks, {nm, *aliases}, uses))
+                types += [nm, *aliases]
             else:
                 items.append(Item([kind, nm, "{"] + body + ["}", ";"], {nm}, uses))
                 types.append(nm)
     return items
 
 
-def join(tokens, rnd=None, enum=False, allow_f20=False):
-    """baseline (rnd None): single blanks; mutant: random separators from the lists above.
+def join(tokens, rnd=None, enum=False, allow_f20=False, sepgen=None, only=None):
+    """baseline (rnd None): single blanks; mutant: random separators from the lists above, or — sepgen — from the richer
+    comment family of s5_c13.rich_sep; only = k: the k-th breakable boundary alone gets a random separator (the others a blank).
     Inside an enum body a newline between a member's name, '=' and value is finding F20: only produced when allow_f20."""
     out = []
     inbody = False
+    b = -1
     for i, t in enumerate(tokens):
         s = t[0] if isinstance(t, tuple) else t
         out.append(s)
@@ -134,33 +141,59 @@ def join(tokens, rnd=None, enum=False, allow_f20=False):
             nxt = tokens[i + 1]
             if isinstance(t, tuple) and s.endswith("\n"):
                 continue
-            if rnd is None:
+            b += 1
+            ns = nxt[0] if isinstance(nxt, tuple) else nxt
+            if s == "{":
+                inbody = True
+            if ns == "}":
+                inbody = False
+            if rnd is None or (only is not None and only != b):
                 out.append(" ")
             else:
-                ns = nxt[0] if isinstance(nxt, tuple) else nxt
                 need = (s[-1].isalnum() or s[-1] == "_") and (ns[0].isalnum() or ns[0] == "_")
-                if s == "{":
-                    inbody = True
-                if ns == "}":
-                    inbody = False
+                nonl = bool(enum and inbody and not allow_f20 and s not in ("{", ",") and ns not in ("}", ","))
+                if sepgen is not None:
+                    out.append(sepgen(rnd, need, nonl))
+                    continue
                 choices = SEPS_REQ if need else SEPS_OPT
-                if enum and inbody and not allow_f20 and s not in ("{", ",") and ns not in ("}", ","):
+                if nonl:
                     choices = [c for c in choices if "\n" not in c]
                 out.append(rnd.choice(choices))
     return "".join(out)
 
 
-def render(items, rnd=None, f20=False):
-    parts = []
-    for it in items:
-        parts.append(join(it.tokens, rnd, enum=it.enum, allow_f20=f20))
-    sep = "\n" if rnd is None else None
+def boundaries(tokens) -> int:
+    """number of breakable token boundaries of one definition"""
+    return sum(1 for i, t in enumerate(tokens[:-1]) if not (isinstance(t, tuple) and t[0].endswith("\n")))
+
+
+def render(items, rnd=None, f20=False, rich=False, one=False):
+    """rich: separators and comments from s5_c13 (comment bodies with //, /*, quotes, stars, slashes, newlines; adjacent
+    comments; a comment before the first and after the last token); one: a single rich separator at one token boundary."""
     if rnd is None:
+        return "\n".join(join(it.tokens) for it in items) + "\n"
+    if one:
+        tot = [boundaries(it.tokens) for it in items]
+        k = rnd.randrange(max(1, sum(tot)))
+        parts = []
+        for it, n in zip(items, tot):
+            parts.append(join(it.tokens, rnd, enum=it.enum, sepgen=s5.rich_sep, only=k if 0 <= k < n else -1))
+            k -= n
         return "\n".join(parts) + "\n"
+    sepgen = s5.rich_sep if rich else None
     out = []
-    for p in parts:
+    if rich and rnd.random() < 0.5:
+        out.append(rnd.choice([s5.block_comment(rnd), s5.line_comment(rnd), s5.block_comment(rnd) + s5.line_comment(rnd)]))
+    for it in items:
+        p = join(it.tokens, rnd, enum=it.enum, allow_f20=f20, sepgen=sepgen)
         out.append(p)
-        out.append(rnd.choice(["\n", "\n\n", " ", "\n// between definitions\n", "/* x */\n"]) if not p.endswith("\n") else rnd.choice(["", "\n", "/* y */\n"]))
+        if rich:
+            out.append(s5.rich_between(rnd) if not p.endswith("\n") else rnd.choice(["", "\n", s5.block_comment(rnd) + "\n", s5.line_comment(rnd)]))
+        else:
+            out.append(rnd.choice(["\n", "\n\n", " ", "\n// between definitions\n", "/* x */\n"]) if not p.endswith("\n") else rnd.choice(["", "\n", "/* y */\n"]))
+    if rich and rnd.random() < 0.5:
+        # a comment that ends the text (a line comment without a final newline)
+        out.append(rnd.choice([s5.block_comment(rnd), s5.line_comment(rnd).rstrip("\n")]))
     return "".join(out)
 
 
@@ -236,6 +269,91 @@ def toposort_variants(items, rnd, k):
     return outs
 
 
+KINDS = ["layout", "layout", "layout", "order", "order+layout", "split", "layout-rich", "layout-rich", "order+layout-rich", "one-comment", "one-comment"]
+
+
+def describe_norm(dc):
+    return lambda T: normalise(describe_type(T, dc))
+
+
+def redeclaration_probes(res, viol, dc, rnd, n):
+    """environments that bind names through every declaration form, then one re-declaration of a bound name (see s5_c13)"""
+    describe = describe_norm(dc)
+    k = 0
+    while k < n:
+        env_decls = s5.gen_environment(rnd)
+        env_names = [x for _, ns in env_decls for x in ns]
+        names = env_names + s5.BUILTIN_NAMES
+        # the environment in one text or over several load() calls with their own options
+        cuts = sorted(rnd.sample(range(1, len(env_decls)), rnd.choice([0, 0, 1, 2])))
+        env_loads = []
+        for a, b in zip([0] + cuts, cuts + [len(env_decls)]):
+            env_loads.append(["\n".join(t for t, _ in env_decls[a:b]), rnd.choice(s5.LOAD_OPTS)])
+        holder = dc.cstruct()
+        try:
+            for text, opts in env_loads:
+                holder.load(text, **opts)
+        except Exception as e:  # noqa: BLE001
+            res.feat("redeclare-env-rejected:" + type(e).__name__)
+            k += 1
+            continue
+        for _ in range(6):
+            k += 1
+            text, form, X, expect, fresh = s5.gen_redeclaration(rnd, holder, dc, env_names, k)
+            same_text = rnd.random() < 0.4
+            popts = rnd.choice(s5.LOAD_OPTS)
+            new_names = ([X] + fresh) if form in ("tag-body", "body-name", "body-names") else []
+            data = {"family": "redeclare", "environment": env_loads, "redeclaration": text, "redeclaration_options": popts, "expect": expect,
+                    "names": names, "new_names": new_names, "same_text": same_text, "form": form, "name": X}
+            res.count(("redeclare", tuple(t for t, _ in env_loads), text, same_text))
+            res.feat(f"redeclare:{form}:{expect}" + (":same-text" if same_text else f":load#{len(env_loads) + 1}"))
+            if X in s5.BUILTIN_NAMES:
+                res.feat("redeclare:built-in-name")
+            problems, outcome = s5.eval_redeclaration(dc, describe, env_loads, text, popts, expect, names, new_names, same_text)
+            res.feat("redeclare-outcome:" + outcome)
+            for what in problems[:1]:
+                viol(what, dict(data, outcome=outcome, problems=problems))
+
+
+def option_history_probes(res, viol, dc, rnd, n):
+    """several definition sets that do not refer to each other, each loaded with its own load() options (align=, compiled=) into one
+    instance, in several orders and with failing load() calls in between (see s5_c13.eval_option_history)"""
+    probe = rand_bytes(rnd, 256)
+    for it in range(n):
+        groups = []
+        for gi in range(rnd.randint(2, 4)):
+            for _attempt in range(5):
+                items = gen_items(rnd, rnd.randint(1, 4), prefix=f"G{gi}_")
+                if any(t in ("struct", "union") for i_ in items for t in i_.tokens):
+                    break
+            opts = dict(rnd.choice(s5.OPTION_SETS))
+            if gi < 2 and rnd.random() < 0.7:
+                # most histories mix aligned and packed loads
+                opts["align"] = (gi == 0) == (it % 2 == 0)
+            text = render(items)
+            try:
+                dc.cstruct().load(text, **opts)
+            except Exception as e:  # noqa: BLE001
+                res.feat("options-baseline-rejected:" + type(e).__name__)
+                continue
+            groups.append([text, opts, sorted(set().union(*[i_.defines for i_ in items]))])
+        if len(groups) < 2:
+            continue
+        for _ in range(2):
+            order = list(range(len(groups)))
+            rnd.shuffle(order)
+            if rnd.random() < 0.3:
+                order.insert(rnd.randint(0, len(order)), rnd.choice(s5.FAILING_LOADS))
+            res.count(("options", tuple((g[0], tuple(sorted(g[1].items()))) for g in groups), tuple(order)))
+            res.feat("options-history:loads=" + str(len(order)))
+            res.feat("options-history:distinct-options=" + str(len({tuple(sorted(g[1].items())) for g in groups})))
+            if any(isinstance(o, str) for o in order):
+                res.feat("options-history:with-failing-load")
+            for gi, what, want, got in s5.eval_option_history(dc, signature, groups, order, probe)[:1]:
+                viol(what, {"family": "options", "groups": groups, "history": order, "group": gi, "probe": probe.hex(),
+                            "fresh_instance_sig": want, "history_sig": got})
+
+
 def run(env) -> Result:
     res = Result()
     res.rule = ("seeded definition sets of 3..9 items (#define, enum/flag with explicit/implicit/expression members, typedef of scalars, "
@@ -271,22 +389,31 @@ def run(env) -> Result:
         # comment stripper correspondence (model)
         lines.append(sx([A("stripcomments"), base_text]))
         metas.append(("strip", base_text, dc.parser.TokenParser._remove_comments(base_text)))
-        for mi in range(6 if tier == "quick" else 12):
-            kind = ["layout", "layout", "layout", "order", "order+layout", "split"][mi % 6]
+        for mi in range(len(KINDS) if tier == "quick" else 2 * len(KINDS)):
+            kind = KINDS[mi % len(KINDS)]
             its = items
             if kind.startswith("order"):
                 its = toposort_variants(items, rnd, 1)[0]
             f20 = kind == "layout" and mi == 1 and any(it.enum for it in its)
-            text = render(its, rnd if kind in ("layout", "order+layout") else None, f20=f20)
-            cd = {"baseline": base_text, "mutant": text, "mutation": kind + ("+enum-newlines" if f20 else "")}
+            rich = kind.endswith("rich")
+            if kind == "one-comment":
+                text = render(its, rnd, one=True)
+            else:
+                text = render(its, rnd if "layout" in kind else None, f20=f20, rich=rich)
+            cd = {"family": "layout", "baseline": base_text, "mutant": text, "mutation": kind + ("+enum-newlines" if f20 else ""),
+                  "names": sorted(names), "probe": probe.hex()}
             res.count((base_text, text), len(items) >= 3)
             res.feat("mutant:" + kind)
+            if rich or kind == "one-comment":
+                for ft in s5.comment_features(text):
+                    res.feat("comment:" + ft)
             cs = dc.cstruct()
             try:
                 if kind == "split":
                     cut = rnd.randint(1, max(1, len(its) - 1))
-                    cs.load(render(its[:cut]))
-                    cs.load(render(its[cut:]))
+                    cd["loads"] = [render(its[:cut]), render(its[cut:])]
+                    for t in cd["loads"]:
+                        cs.load(t)
                 else:
                     cs.load(text)
             except Exception as e:  # noqa: BLE001
@@ -297,9 +424,11 @@ def run(env) -> Result:
                 i = next((j for j in range(min(len(base), len(got))) if base[j] != got[j]), 0)
                 viol("inserting comments/whitespace or reordering independent definitions changed the resulting types",
                      dict(cd, baseline_sig=base[max(0, i - 150): i + 150], mutant_sig=got[max(0, i - 150): i + 150]), "F20" if f20 else None)
-            if kind in ("layout", "order+layout"):
+            if "layout" in kind or kind == "one-comment":
                 lines.append(sx([A("stripcomments"), text]))
                 metas.append(("strip", text, dc.parser.TokenParser._remove_comments(text)))
+    redeclaration_probes(res, viol, dc, mkrng(env["seed"], "c13-redeclare"), 150 if tier == "quick" else 4000)
+    option_history_probes(res, viol, dc, mkrng(env["seed"], "c13-options"), 40 if tier == "quick" else 1200)
     # ---- alias laws
     cs = dc.cstruct()
     for name, target in cs.typedefs.items():
